@@ -228,17 +228,52 @@ Proof.
   - destruct (IH st) as [st2 E]. rewrite E. eauto.
 Qed.
 
+(* the upcall stands anywhere among the statements of setUp / tearDown: the base method leaves the details and
+   force_failure alone, so the function is its statement list *)
+Lemma run_body_app a : forall st b,
+  run_body st (a ++ b) =
+  let '(st1, l1, e1) := run_body st a in
+  match e1 with
+  | Some _ => (st1, l1, e1)
+  | None => let '(st2, l2, e2) := run_body st1 b in (st2, (l1 ++ l2)%list, e2)
+  end.
+Proof.
+  induction a as [|s r IH]; intros st b; simpl.
+  - destruct (run_body st b) as [[st2 l2] e2]. reflexivity.
+  - destruct s as [k mis]. simpl. destruct k, mis as [ds|]; simpl; try reflexivity;
+      rewrite IH;
+      match goal with |- context [run_body ?st' r] => destruct (run_body st' r) as [[st1 l1] [x|]] end;
+      try reflexivity;
+      match goal with |- context [run_body ?st' b] => destruct (run_body st' b) as [[st2 l2] e2] end; reflexivity.
+Qed.
+
+Lemma run_fn_body base st steps up : (forall x, base x = x) -> run_fn base st steps up = run_body st steps.
+Proof.
+  intro B. transitivity (run_body st (firstn up steps ++ skipn up steps)); [|rewrite firstn_skipn; reflexivity].
+  unfold run_fn. rewrite run_body_app.
+  destruct (run_body st (firstn up steps)) as [[st1 l1] [x|]]; [reflexivity|]. rewrite B. reflexivity.
+Qed.
+
+Theorem upcall_anywhere p u v :
+  run_test {| p_pre := p_pre p; p_setup := p_setup p; p_setup_up := u; p_body := p_body p;
+              p_teardown := p_teardown p; p_teardown_up := v; p_cleanups := p_cleanups p |} = run_test p.
+Proof.
+  unfold run_test. simpl. rewrite !(run_fn_body base_setup) by reflexivity.
+  destruct (run_body _ (p_setup p)) as [[st1 l0] [x|]]; [reflexivity|].
+  destruct (run_body st1 (p_body p)) as [[st2 l1] e1]. rewrite !(run_fn_body base_teardown) by reflexivity. reflexivity.
+Qed.
+
 Lemma run_test_unfold p :
   let '(st, ls, es) := run_cleanups {| t_details := Some (p_pre p); t_forced := false |} (phases p) in
   run_test p = {| r_raised := ls; r_after_ran := true;
                   r_outcome := final_outcome (es ++ (if t_forced st then [XFail] else []))%list;
                   r_details := t_details st |}.
 Proof.
-  unfold run_test, phases, setup_raises. rewrite <- exc_of_is_some.
+  unfold run_test, phases, setup_raises. rewrite run_fn_body by reflexivity. rewrite <- exc_of_is_some.
   destruct (run_body_shape (p_setup p) {| t_details := Some (p_pre p); t_forced := false |}) as [st1 E0].
   destruct (exc_of (p_setup p)) as [x|] eqn:X; simpl; rewrite E0, ?X.
   - destruct (run_cleanups st1 (rev (p_cleanups p))) as [[st4 ls] es]. simpl. reflexivity.
-  - destruct (run_body_shape (p_body p) st1) as [st2 E1]. rewrite E1.
+  - destruct (run_body_shape (p_body p) st1) as [st2 E1]. rewrite E1. rewrite run_fn_body by reflexivity.
     destruct (run_body_shape (p_teardown p) st2) as [st3 E2]. rewrite E2.
     destruct (run_cleanups st3 (rev (p_cleanups p))) as [[st4 ls] es]. simpl.
     rewrite <- !app_assoc. reflexivity.
@@ -531,7 +566,7 @@ Qed.
 (* the former finding F21 (repaired by /repo 889980a): expectThat mismatches in setUp, setUp then skips *)
 Definition witness_F21 : prog :=
   {| p_pre := []; p_setup := [{| s_kind := ExpectThat; s_mis := Some [("a", 1)] |}; {| s_kind := Raise XSkip; s_mis := None |}];
-     p_body := []; p_teardown := []; p_cleanups := [] |}.
+     p_setup_up := 0; p_body := []; p_teardown := []; p_teardown_up := 0; p_cleanups := [] |}.
 
 (* ---------- the executable statement implies the readable one ---------- *)
 Lemma count_nat_notin t l : ~ In t l -> count_nat t l = 0.
